@@ -798,6 +798,7 @@ Document in the isolated worker on 3-5 target ids; non-trivial = every case (dis
         batch.push(Pending { case_id: c.cur, stream: "chains".into(), req, doc_targets: targets, hazard: hz }); docs.push(doc);
     }
     run_batch(c, batch, &docs);
+    parent_graph_stream(c);
     refchain_stream(c);
     systematic_stream(c);
     count_outline_stream(c);
@@ -805,6 +806,46 @@ Document in the isolated worker on 3-5 target ids; non-trivial = every case (dis
     known_streams(c);
 }
 
+
+// ------------------------------------------------------------------------------------------
+// Parent chains of DICTIONARIES of every shape above a page: `lead` nodes and then a ring of `ring` nodes (0 = the chain
+// ends), the page itself in or outside the ring, Resources on no node / a lead node / a ring node / the page, Type keys
+// present or not. Anything that walks up (resources, fonts, images, annotations, page lookups) must come back.
+// ------------------------------------------------------------------------------------------
+fn parent_graph_stream(c: &mut Ctx) {
+    let mut batch = vec![]; let mut docs = vec![];
+    let mut k = 0u64;
+    for lead in 0..4usize { for ring in 0..5usize { for through_page in [false, true] { for res_at in 0..4usize { for typed in [true, false] {
+        k += 1;
+        if c.quick() && k % 2 == 0 && ring != 2 { continue; }
+        let Some(_r) = c.case("parent_graph", k) else { continue };
+        // nodes 40.. : lead nodes then ring nodes
+        let n_nodes = lead + ring;
+        let node_id = |i: usize| (40 + i as u32, 0u16);
+        let mut doc = mini(vec![], vec![(50, stream(Dictionary::new(), CONTENT)), (60, Object::Dictionary(dict(vec![("Type", name("Font")), ("Subtype", name("Type1")), ("BaseFont", name("Helvetica"))]))),
+            (61, stream(dict(vec![("Type", name("XObject")), ("Subtype", name("Image")), ("Width", Object::Integer(1)), ("Height", Object::Integer(1)), ("ColorSpace", name("DeviceGray")), ("BitsPerComponent", Object::Integer(8))]), b"x"))]);
+        let res = || Object::Dictionary(dict(vec![("Font", Object::Dictionary(dict(vec![("F1", rf((60, 0)))]))), ("XObject", Object::Dictionary(dict(vec![("Im1", rf((61, 0)))])))]));
+        let mut page = dict(vec![("Contents", rf((50, 0)))]);
+        if typed { page.set("Type", name("Page")); }
+        if n_nodes > 0 { page.set("Parent", rf(node_id(0))); } else { page.set("Parent", rf((3, 0))); }
+        if res_at == 3 { page.set("Resources", res()); }
+        doc.objects.insert((3, 0), Object::Dictionary(page));
+        for i in 0..n_nodes {
+            let mut nd = dict(vec![("Kids", Object::Array(vec![rf((3, 0))])), ("Count", Object::Integer(1))]);
+            if typed { nd.set("Type", name("Pages")); }
+            let next = if i + 1 < n_nodes { Some(node_id(i + 1)) } else if ring > 0 { Some(if through_page { (3, 0) } else { node_id(lead) }) } else { None };
+            if let Some(nx) = next { nd.set("Parent", rf(nx)); }
+            if (res_at == 1 && i == 0 && lead > 0) || (res_at == 2 && i >= lead) { nd.set("Resources", res()); }
+            doc.objects.insert(node_id(i), Object::Dictionary(nd));
+        }
+        let mut targets = vec![(3, 0), (50, 0), (61, 0)]; if n_nodes > 0 { targets.push(node_id(0)); targets.push(node_id(n_nodes - 1)); }
+        let hz = analyse(&doc, &targets);
+        let req = request("all", &targets, &doc);
+        c.nontrivial(&req); c.count("parent_graph.cases");
+        batch.push(Pending { case_id: c.cur, stream: "parent_graph".into(), req, doc_targets: targets, hazard: hz }); docs.push(doc);
+    } } } } }
+    run_batch(c, batch, &docs);
+}
 
 // ------------------------------------------------------------------------------------------
 // reference chains of every shape at every place a query dereferences
